@@ -721,7 +721,10 @@ fn calculate_sighash_preimage(txscript: &mut TxScript, sighash: SigHash, codesep
     let unlock_script_len = txin.get_unlocking_script().to_script_bits().len();
     let script_offset = codeseparator_offset.saturating_sub(unlock_script_len);
     let unsigned_script = match txin.get_locking_script() {
-        Some(v) => Script::from_script_bits(v.to_script_bits()[script_offset..].to_vec()),
+        Some(v) => match v.to_script_bits().get(script_offset..) {
+            Some(subscript) => Script::from_script_bits(subscript.to_vec()),
+            None => return Err(InterpreterError::InvalidStackOperation("code separator offset lies beyond the locking script")),
+        },
         None => return Err(InterpreterError::InvalidStackOperation("TxIn at given index does not have locking script provided")),
     };
     println!("Unsigned script: {}", unsigned_script.to_asm_string());
